@@ -105,7 +105,8 @@ theorem argStep_token (mk : Text → Bool → Bool → Bool → Res Term) (ch : 
   unfold argStep
   simp only [hp.esc, hp.oq, hp.rd, hp.sq, Bool.false_eq_true, if_false]
   simp only [show (ch == '[') = false from by simpa using h5, show (ch == ']') = false from by simpa using h6,
-    show (ch == '(') = false from by simpa using h3, show (ch == ')') = false from by simpa using h4]
+    show (ch == '(') = false from by simpa using h3, show (ch == ')') = false from by simpa using h4,
+    show (ch == '"') = false from by simpa using h2, Bool.false_and, Bool.false_eq_true, if_false]
   simp only [show ((0:Int) == 0 && (0:Int) == 0) = true from rfl, if_true]
   unfold argStepTop
   simp only [show (ch == ',') = false from by simpa using h7, Bool.false_eq_true, if_false]
@@ -252,7 +253,7 @@ theorem listStep_token (po : POps) (pt : Text → Res Term) (c : Char) (esc : Bo
     (hp : ListPlain st) (hc : tokChar c = true) :
     listStep po pt c esc st = .ok (st.push c) := by
   obtain ⟨h1, h2, h3, h4, h5, h6, h7, h8, h9, hw⟩ := tokChar_facts hc
-  unfold listStep
+  unfold listStep listStepTop
   simp only [hp.oq, hp.rd, hp.sq, Bool.false_eq_true, if_false,
     show (c == ']') = false from by simpa using h6, show (c == '[') = false from by simpa using h5,
     show (c == ')') = false from by simpa using h4, show (c == '(') = false from by simpa using h3,
